@@ -153,7 +153,7 @@ Lemma told_fire_simple owed s k before t mkid extra : told owed s -> told owed (
 Proof. apply (fire_simple_pres (told owed) (T_emit owed)). Qed.
 
 Lemma told_fire_order_before owed s r t : told owed s -> told owed (fst (fire_order_before s r t)).
-Proof. apply (fire_order_before_pres (told owed) (T_fail owed) (T_emit owed) (T_spent owed)). Qed.
+Proof. apply (fire_order_before_pres (told owed) (fail_any _ (T_fail owed)) (T_emit owed) (T_spent owed)). Qed.
 
 (* the notification of one fill pays exactly what that fill calls for: buyer, then seller *)
 Lemma told_notify rest s mkid r : is_fill r = true -> round_ctx mkid s ->
